@@ -669,6 +669,14 @@ func (s *Service) rename(
 	if len(keys) != len(names) {
 		return errors.Wrap(validate.ErrValidation, "keys and names must be the same length")
 	}
+	// The storage engine refuses an empty name. Refuse it before any metadata is
+	// written, so that a rename outside a transaction cannot leave the metadata
+	// renamed and the engine not.
+	for i, name := range names {
+		if name == "" {
+			return validate.PathedError(validate.ErrRequired, fmt.Sprintf("[%d].name", i))
+		}
+	}
 	if *s.cfg.ValidateNames {
 		if err := s.validateChannelNames(ctx, tx, keys, names, false); err != nil {
 			return err
